@@ -5,7 +5,7 @@
 (* E57Format as judge of the bytes the real writer produced.               *)
 (* Tags: P:Cxx:... property-tier predicate of property Cxx; S:... strict.  *)
 (***************************************************************************)
-EXTENDS E57Spec, TraceBase
+EXTENDS E57Meta, TraceBase
 
 TInit == EInit /\ l = 1 /\ TLCSet(1, <<0, "none">>)
 
@@ -43,7 +43,7 @@ T_PcNew == /\ IsEv("pc_new") /\ NoPanic
 T_PcSet == IsEv("pc_set") /\ PC_Set(E.f, E.v)
 T_PcPoints == /\ IsEv("pc_points")
               /\ ChkP(\A k \in 1..Len(E.pts) : PointFits(sc.pc.proto, E.pts[k]), {"C10"}, "unrepresentable-value-accepted")
-              /\ PC_Points(E.pts)
+              /\ PC_Points(E.pts, IF Has(E, "reals") THEN E.reals ELSE <<>>)
 T_PcPoint == /\ IsEv("pc_point") /\ NoPanic
              /\ Chk(IsErr(E.res), "S:single-point-event-must-be-a-rejection")
              /\ ChkP(~PointFits(sc.pc.proto, E.vals), {"C01"}, "valid-point-rejected")
@@ -117,8 +117,9 @@ FileOk(img, xml) ==
     /\ ChkP(Len(img) > 0 /\ Len(img) % PAGE = 0, {"C02"}, "whole-pages")
     /\ ChkP(\A k \in 0..(NPages(img) - 1) : PageValid(img, k), {"C02"}, "page-checksum")
     /\ ChkP(HeaderOk(img), {"C02"}, "file-header")
-    /\ ChkP(xml.wf = 1, {"C02"}, "xml-not-well-formed")
+    /\ ChkP(xml.wf = 1, {"C02", "C04"}, "xml-not-well-formed")
     /\ ChkP(xml.root.ns = E57NS /\ xml.root.name = "e57Root" /\ AttrS(xml.root, "type") = "Structure", {"C02"}, "xml-root")
+    /\ ChkP(SchemaOkAt("e57Root", xml.root), {"C02", "C04"}, "xml-element-not-in-the-E57-schema:" \o SchemaBadAt("e57Root", xml.root))
     /\ \E L \in {Payload(img)} :
          /\ \E d3 \in {Data3D(xml)} :
               /\ ChkP(Len(d3) = Len(sc.pcs), {"C01"}, "number-of-point-clouds")
@@ -143,11 +144,92 @@ T_ROpen == /\ IsEv("r_open") /\ RNoPanic
            /\ ChkP(IsOk(E.res), {"C10", "C01", "C04", "C06", "C12", "C14", "C19"}, "finalized-file-does-not-open")
            /\ res' = E.res /\ FileUnch
 
+OptEq(a, b) == a = b
+\* expected limits: the caller's complete override as given, None when reset, otherwise the declared type range
+ExpIntensityLimits(pc) ==
+    IF WasSet(pc.meta, "intensity_limits") THEN LastSet(pc.meta, "intensity_limits")
+    ELSE IF HasName(pc.proto, "intensity")
+         THEN LET r == RecOf(pc.proto, "intensity") mn == TypeLimit(r, "min") mx == TypeLimit(r, "max")
+              IN IF LimitComplete2(mn, mx) THEN SomeV([min |-> mn, max |-> mx]) ELSE NoneV
+         ELSE NoneV
+IntensityLimitsSettled(pc) ==
+    ~WasSet(pc.meta, "intensity_limits") \/ ~IsSome(LastSet(pc.meta, "intensity_limits"))
+      \/ LimitComplete2(LastSet(pc.meta, "intensity_limits").some.min, LastSet(pc.meta, "intensity_limits").some.max)
+ColorFields == <<"rmin", "rmax", "gmin", "gmax", "bmin", "bmax">>
+ExpColorLimits(pc) ==
+    IF WasSet(pc.meta, "color_limits") THEN LastSet(pc.meta, "color_limits")
+    ELSE IF HasName(pc.proto, "colorRed")
+         THEN LET r == RecOf(pc.proto, "colorRed") g == RecOf(pc.proto, "colorGreen") b == RecOf(pc.proto, "colorBlue")
+                  cl == [rmin |-> TypeLimit(r, "min"), rmax |-> TypeLimit(r, "max"), gmin |-> TypeLimit(g, "min"),
+                         gmax |-> TypeLimit(g, "max"), bmin |-> TypeLimit(b, "min"), bmax |-> TypeLimit(b, "max")]
+              IN IF \A i \in 1..6 : IsSome(cl[ColorFields[i]]) THEN SomeV(cl) ELSE NoneV
+         ELSE NoneV
+ColorLimitsSettled(pc) ==
+    ~WasSet(pc.meta, "color_limits") \/ ~IsSome(LastSet(pc.meta, "color_limits"))
+      \/ \A i \in 1..6 : IsSome(LastSet(pc.meta, "color_limits").some[ColorFields[i]])
+
+HasReals(pc) == Len(pc.reals) = Len(pc.pts)
+ExpCart(pc) ==
+    IF ~HasName(pc.proto, "cartesianX") THEN NoneV
+    ELSE LET x == RealBounds(pc.reals, ColOf(pc.proto, "cartesianX")) y == RealBounds(pc.reals, ColOf(pc.proto, "cartesianY"))
+             z == RealBounds(pc.reals, ColOf(pc.proto, "cartesianZ"))
+         IN SomeV([xmin |-> x[1], xmax |-> x[2], ymin |-> y[1], ymax |-> y[2], zmin |-> z[1], zmax |-> z[2]])
+ExpSph(pc) ==
+    IF ~HasName(pc.proto, "sphericalAzimuth") THEN NoneV
+    ELSE LET r == RealBounds(pc.reals, ColOf(pc.proto, "sphericalRange")) a == RealBounds(pc.reals, ColOf(pc.proto, "sphericalAzimuth"))
+             e == RealBounds(pc.reals, ColOf(pc.proto, "sphericalElevation"))
+         IN SomeV([rmin |-> r[1], rmax |-> r[2], emin |-> e[1], emax |-> e[2], astart |-> a[1], aend |-> a[2]])
+IdxB(pc, n) == IF HasName(pc.proto, n) THEN IntBounds(pc.pts, ColOf(pc.proto, n)) ELSE <<NoneV, NoneV>>
+ExpIdx(pc) ==
+    IF ~(HasName(pc.proto, "rowIndex") \/ HasName(pc.proto, "columnIndex") \/ HasName(pc.proto, "returnIndex")) THEN NoneV
+    ELSE SomeV([rowmin |-> IdxB(pc, "rowIndex")[1], rowmax |-> IdxB(pc, "rowIndex")[2],
+                colmin |-> IdxB(pc, "columnIndex")[1], colmax |-> IdxB(pc, "columnIndex")[2],
+                retmin |-> IdxB(pc, "returnIndex")[1], retmax |-> IdxB(pc, "returnIndex")[2]])
+\* numeric comparison of optional bounds structures (field-wise, -0 = +0)
+BoundsEq(a, b, fields) ==
+    /\ IsSome(a) = IsSome(b)
+    /\ IsSome(a) => \A i \in 1..Len(fields) : FEqOpt(a.some[fields[i]], b.some[fields[i]])
+CartFields == <<"xmin", "xmax", "ymin", "ymax", "zmin", "zmax">>
+SphFields  == <<"rmin", "rmax", "emin", "emax", "astart", "aend">>
+
 RPcOk(rp, pc, pcnode) ==
     /\ ChkP(rp.records = NatToL64(Len(pc.pts)), {"C01"}, "reported-record-count")
-    /\ ChkP(rp.proto = pc.proto, {"C01"}, "reported-prototype")
+    /\ ChkP(rp.proto = pc.proto, {"C01", "C04"}, "reported-prototype")
     /\ ChkP(rp.file_offset = AttrV(PointsEl(pcnode), "fileOffset").u, {"C04"}, "reported-file-offset")
     /\ ChkP(rp.guid = SomeV(pc.guid), {"C04"}, "pointcloud-guid")
+    /\ \A i \in 1..Len(PcStringFields) :
+          ChkP(rp[PcStringFields[i]] = LastSet(pc.meta, PcStringFields[i]), {"C04"}, "pointcloud-string:" \o PcStringFields[i])
+    /\ \A i \in 1..Len(PcFloatFields) :
+          ChkP(rp[PcFloatFields[i]] = LastSet(pc.meta, PcFloatFields[i]), {"C04"}, "pointcloud-float:" \o PcFloatFields[i])
+    /\ \A i \in 1..Len(PcOtherFields) :
+          ChkP(rp[PcOtherFields[i]] = LastSet(pc.meta, PcOtherFields[i]), {"C04"}, "pointcloud-field:" \o PcOtherFields[i])
+    /\ ChkP(IntensityLimitsSettled(pc) => rp.intensity_limits = ExpIntensityLimits(pc), {"C14", "C04"}, "intensity-limits")
+    /\ ChkP(ColorLimitsSettled(pc) => rp.color_limits = ExpColorLimits(pc), {"C14", "C04"}, "color-limits")
+    /\ ChkP(IsSome(rp.cartesian_bounds) = HasName(pc.proto, "cartesianX"), {"C14"}, "cartesian-bounds-presence")
+    /\ ChkP(IsSome(rp.spherical_bounds) = HasName(pc.proto, "sphericalAzimuth"), {"C14"}, "spherical-bounds-presence")
+    /\ ChkP(rp.index_bounds = ExpIdx(pc), {"C14"}, "index-bounds")
+    /\ HasReals(pc) =>
+          /\ ChkP(BoundsEq(rp.cartesian_bounds, ExpCart(pc), CartFields), {"C14"}, "cartesian-bounds")
+          /\ ChkP(BoundsEq(rp.spherical_bounds, ExpSph(pc), SphFields), {"C14"}, "spherical-bounds")
+
+\* an image as the reader must report it: one visual reference (the last one added) and one projection
+RBlobOk(rb, data) == rb.len = NatToL64(Len(data))
+RImOk(ri, im) ==
+    /\ ChkP(ri.guid = SomeV(im.guid), {"C04"}, "image-guid")
+    /\ \A i \in 1..Len(ImFields) :
+          ChkP(ri[ImFields[i]] = LastSetPlain(im.meta, ImFields[i]), {"C04"}, "image-field:" \o ImFields[i])
+    /\ \E vis \in {LastVisual(im.reps)} : \E prj \in {Projections(im.reps)} :
+          /\ ChkP(IsSome(ri.visual) = (vis # <<>>), {"C04"}, "visual-reference-presence")
+          /\ (IsSome(ri.visual) /\ vis # <<>>) =>
+                /\ ChkP(ri.visual.some.props = vis[1].props, {"C04"}, "visual-reference-properties")
+                /\ ChkP(ri.visual.some.blob.fmt = vis[1].fmt /\ RBlobOk(ri.visual.some.blob.blob, vis[1].data), {"C04", "C06"}, "visual-reference-blob")
+                /\ ChkP(IsSome(ri.visual.some.mask) = IsSome(vis[1].mask), {"C04", "C06"}, "visual-reference-mask")
+          /\ ChkP(IsSome(ri.projection) = (prj # <<>>), {"C04"}, "projection-presence")
+          /\ (IsSome(ri.projection) /\ prj # <<>>) =>
+                /\ ChkP(ri.projection.some.kind = prj[1].kind, {"C04"}, "projection-kind")
+                /\ ChkP(ri.projection.some.props = prj[1].props, {"C04"}, "projection-properties")
+                /\ ChkP(ri.projection.some.blob.fmt = prj[1].fmt /\ RBlobOk(ri.projection.some.blob.blob, prj[1].data), {"C04", "C06"}, "projection-blob")
+                /\ ChkP(IsSome(ri.projection.some.mask) = IsSome(prj[1].mask), {"C04", "C06"}, "projection-mask")
 
 T_RReport == /\ IsEv("r_report") /\ RNoPanic
              /\ ChkP(IsOk(E.res), {"C04"}, "report-failed")
@@ -157,6 +239,11 @@ T_RReport == /\ IsEv("r_report") /\ RNoPanic
              /\ Len(E.res.ok.pcs) = Len(sc.pcs) =>
                   \A i \in 1..Len(sc.pcs) : RPcOk(E.res.ok.pcs[i], sc.pcs[i], Data3D(file.xml)[i])
              /\ ChkP(Len(E.res.ok.images) = Len(sc.images), {"C04"}, "reported-number-of-images")
+             /\ Len(E.res.ok.images) = Len(sc.images) => \A i \in 1..Len(sc.images) : RImOk(E.res.ok.images[i], sc.images[i])
+             /\ ChkP(E.res.ok.coord = LastSet(sc.root, "coord"), {"C04"}, "coordinate-metadata")
+             /\ ChkP(E.res.ok.creation = LastSet(sc.root, "creation"), {"C04"}, "creation-date-time")
+             /\ ChkP(E.res.ok.ext = sc.exts, {"C04"}, "registered-extensions")
+             /\ ChkP(E.res.ok.format = "ASTM E57 3D Imaging Data File", {"C04"}, "format-name")
              /\ res' = E.res /\ FileUnch
 
 T_RRaw == /\ IsEv("r_raw") /\ RNoPanic
